@@ -18,7 +18,7 @@ func init() {
 }
 
 var byzKinds = []string{"honest", "notfound", "prefix", "shifted", "repeated", "reordered", "more", "forged", "wrong-chain",
-	"undecodable", "unknown-status", "garbage", "truncated", "empty", "hang", "reset", "slow", "bad-validate", "shifted-back", "shifted-short", "empty-chain"}
+	"undecodable", "unknown-status", "garbage", "truncated", "empty", "hang", "reset", "slow", "bad-validate", "shifted-back", "shifted-short", "empty-chain", "gap-relinked"}
 
 // byzReply builds the reply of a scripted peer for a range request.
 func byzReply(s *core.Sim, rng *core.Tape, ch *simhdr.Chain, kind string, req *p2p_pb.HeaderRequest, timeout time.Duration) Reply {
@@ -62,6 +62,32 @@ func byzReply(s *core.Sim, rng *core.Tape, ch *simhdr.Chain, kind string, req *p
 		c := simhdr.Clone(hs[i])
 		c.Chain = ""
 		hs[i] = c.Sign()
+		r.Frames = okFrames(hs...)
+	case "gap-relinked":
+		// starts at the requested origin, skips k heights somewhere, and the header after the
+		// hole is re-issued (validly signed, as by a colluding signer) so that it links to the
+		// header before the hole: the hash chain is unbroken, the heights are not consecutive
+		hs := hon(o, a+3)
+		if len(hs) >= 3 {
+			i := 1 + rng.Draw("hole-at", len(hs)-2)
+			k := 1 + rng.Draw("hole-len", 2)
+			if i+k < len(hs) {
+				salt := uint64(rng.Draw("salt", 1000))
+				out := append([]*H(nil), hs[:i]...)
+				prev := hs[i-1]
+				for _, x := range hs[i+k:] { // the whole rest is re-issued on top of the forged link
+					c := simhdr.Clone(x)
+					c.Prev = append([]byte(nil), prev.Hash()...)
+					c.Salt = salt
+					prev = c.Sign()
+					out = append(out, prev)
+				}
+				hs = out
+			}
+		}
+		if uint64(len(hs)) > a {
+			hs = hs[:a]
+		}
 		r.Frames = okFrames(hs...)
 	case "shifted-back":
 		d := uint64(1 + rng.Draw("shift", 3))
